@@ -110,6 +110,7 @@ func main() {
 				Text     string   `json:"text"`
 				Schema   string   `json:"schema"`
 				Hex      string   `json:"hex"`
+				Encoding string   `json:"encoding"`
 				Format   string   `json:"format"`
 				Docs     []string `json:"docs"`
 				XPath    string   `json:"xpath"`
@@ -144,6 +145,8 @@ func main() {
 				Schedule: rp.Case.Schedule, Release: rp.Case.Release}, true)
 		case "doc-seq":
 			failed = runDocSeq(sum, seqCase{Kind: rp.Case.Kind, Format: rp.Case.Format, Docs: rp.Case.Docs, XPath: rp.Case.XPath}, true)
+		case "json-enc", "xml-enc":
+			failed = runEncoded(sum, cw, encCase{Kind: rp.Case.Kind, Encoding: rp.Case.Encoding, Hex: rp.Case.Hex}, true)
 		case "json-seq":
 			failed = runJSONSeq(sum, rp.Case.Text, rp.Case.Schema, true)
 		default:
@@ -232,6 +235,13 @@ func main() {
 	escapeDocs(sum, cw)
 	crDocs(sum, cw)
 	encodedDocs(r, sum, cw)
+	for i, k := 0, o.Count(60, 1200)+4; i < k; i++ {
+		fixed := 0
+		if i < 4 {
+			fixed = i + 1
+		}
+		genEncoded(r, sum, cw, fixed)
+	}
 	genInterleave(r, sum, true)
 	for i, k := 0, o.Count(150, 3000); i < k; i++ {
 		genInterleave(r, sum, false)
